@@ -38,7 +38,15 @@ class Unsupported(Exception):
 # ---- global rewrite rules -------------------------------------------------
 # Each rule: (id, compiled regex, replacement, description).  Applied to the
 # *masked-safe* body text (we only rewrite where the masked text matches too).
+def _bytestring_array(mm):
+    import ast
+    raw = ast.literal_eval('b"' + mm.group(1) + '"')
+    return '[' + ', '.join('0x%02Xu8' % b for b in raw) + ']'
+
+
 RULES = [
+    ('R11', re.compile(r'\*b"((?:[^"\\]|\\.)*)"'), _bytestring_array,
+     '`*b"..."` -> the array literal of the same bytes (computed from the literal; Verus does not interpret byte-string literals)'),
     ('R7', re.compile(r'(\b\w+\[[^\]]+\])\s*\.try_into\(\)\s*\.(?:expect\("[^"]*"\)|unwrap\(\))'), r'v_slice_to_array(&\1)',
      'slice[a..b].try_into().unwrap()/expect(..) -> v_slice_to_array(&slice[a..b]) (requires len == N: the implicit panic becomes a proved precondition)'),
     ('R7', re.compile(r'\b(payload|bytes|buf|body)\s*\.try_into\(\)\s*\.(?:expect\("[^"]*"\)|unwrap\(\))'), r'v_slice_to_array(\1)',
@@ -162,6 +170,14 @@ class Extractor:
         self._count('R9', n9)
         text, nf = re.subn(r'#\[(from|source|serde[^\]]*)\]\s*', '', text)
         self._count('R4', nf)
+        # R11: `*b"..."` (deref of a byte-string literal) -> the array literal of the same bytes; Verus does
+        # not interpret byte-string literals.  Computed from the literal, so a changed literal changes the array.
+        def _bs(mm):
+            import ast
+            raw = ast.literal_eval('b"' + mm.group(1) + '"')
+            return '[' + ', '.join('0x%02Xu8' % b for b in raw) + ']'
+        text, nb = re.subn(r'\*b"((?:[^"\\]|\\.)*)"', _bs, text)
+        self._count('R11', nb)
         for (a, b) in (rewrites or []):
             if a not in text:
                 raise LostAnchor('item %s: rewrite source %r not found' % (name, a))
@@ -171,7 +187,9 @@ class Extractor:
 
     # -- functions -------------------------------------------------------------
     def function(self, rel, qual, ret=None, new_name=None, contract='', loops=None,
-                 proofs=None, rewrites=None, vis='pub', drop_self_mut=False, lebytes=None, prewrites=None):
+                 proofs=None, rewrites=None, vis='pub', drop_self_mut=False, lebytes=None, prewrites=None, preregex=None, attrs=None):
+        self._preregex = preregex
+        self._attrs = attrs
         src, m = self._load(rel)
         lo, hi = 0, len(m)
         if '::' in qual:
@@ -322,6 +340,12 @@ class Extractor:
             sig = sig.replace(a, b)
             self._count('RX', max(n, 1))
             applied.append('RX(pre) %r => %r x%d' % (a, b, max(n, 1)))
+        for (a, b) in (getattr(self, '_preregex', None) or []):
+            new_body, n = re.subn(a, b, new_body)
+            if n == 0:
+                raise LostAnchor('%s: preregex %r matched nothing' % (qual, a))
+            self._count('RX', n)
+            applied.append('RX(regex) %r => %r x%d' % (a, b, n))
         if lebytes:
             # R2 (type-directed): X.to_{le,be}_bytes() -> v_<T>_to_xx_bytes(X) using the declared integer type of X
             def _le(mm):
@@ -354,7 +378,7 @@ class Extractor:
         self._count('R4', n4)
 
         v = (vis + ' ') if vis else ''
-        out = '%s%s\n%s\n%s' % (v, sig, contract, new_body)
+        out = '%s%s%s\n%s\n%s' % (''.join(a + '\n' for a in (self._attrs or [])), v, sig, contract, new_body)
         self._count('R9', 0 if original.lstrip().startswith('pub ') else 1)
         self.functions.append('%s::%s' % (rel, qual))
         # diff of real text vs fed text, ignoring inserted contract/proof lines is not
@@ -427,6 +451,13 @@ def parse_template(text):
                     if not mm:
                         raise Unsupported('bad //@rewrite line: %r' % t)
                     d['rewrites'].append((mm.group(1).replace('\\n', '\n'), mm.group(2).replace('\\n', '\n')))
+                elif t.startswith('//@attr '):
+                    d.setdefault('attrs', []).append(t[len('//@attr '):].strip())
+                elif t.startswith('//@preregex '):
+                    mm = re.match(r'//@preregex\s+"(.*)"\s*=>\s*"(.*)"\s*$', t)
+                    if not mm:
+                        raise Unsupported('bad //@preregex line: %r' % t)
+                    d.setdefault('preregex', []).append((mm.group(1), mm.group(2)))
                 elif t.startswith('//@prewrite '):
                     mm = re.match(r'//@prewrite\s+"(.*)"\s*=>\s*"(.*)"\s*$', t)
                     if not mm:
@@ -467,5 +498,5 @@ def assemble(template_text, repo_root):
             chunks.append('// ---- extracted fn %s from %s\n' % (d['qual'], d['file']) +
                           ex.function(d['file'], d['qual'], ret=d['ret'], new_name=d['new_name'],
                                       contract=d['contract'], loops=d['loops'], proofs=d['proofs'],
-                                      rewrites=d['rewrites'], vis=d['vis'], lebytes=d.get('lebytes'), prewrites=d.get('prewrites')))
+                                      rewrites=d['rewrites'], vis=d['vis'], lebytes=d.get('lebytes'), prewrites=d.get('prewrites'), preregex=d.get('preregex'), attrs=d.get('attrs')))
     return '\n'.join(chunks), ex
